@@ -37,3 +37,44 @@ class Abs:
 
     def inside(self, T):
         return z3.And(self.lo <= T, T < self.hi)
+
+
+# ------------------------------------------------------------------ sub-sequences of position lists (C15)
+# "A is a sub-sequence of B" is an existential statement (there is a strictly increasing index function).  Where the clause is PROVED
+# the contract text supplies the witness (e.g. the index map of the list comprehension that built A); where it is ASSUMED (callee
+# postcondition at a call site, loop invariant at the loop head) it is used in Skolem form with the global function SUBF keyed by the
+# two owners (object references): sound, because the statement depends on nothing but the two position lists of these immutable objects.
+SUBF = z3.Function('subseq_index', Ref, Ref, z3.IntSort(), z3.IntSort())
+SUBG = z3.Function('subseq_kept_at', Ref, Ref, z3.IntSort(), z3.IntSort())
+
+
+def subseq(A, B, f, proving=False):
+    """list view A (objects) is a sub-sequence of list view B via the index function f (python callable: 0-based index of A -> 0-based
+    index of B): same objects, same relative order"""
+    T, j, j2 = z3.Int('sqT'), z3.Int('sqj'), z3.Int('sqj2')
+    a = Abs(A)
+    fj = f(T - A.off)
+    ebody = z3.Implies(a.inside(T), z3.And(0 <= fj, fj < B.len, z3.Select(A.v.arrs[0], T) == z3.Select(B.v.arrs[0], B.off + fj)))
+    # (a goal needs no patterns - it is negated and skolemised - and its terms may contain if-then-else, which patterns must not)
+    elem = z3.ForAll([T], ebody) if proving else z3.ForAll([T], ebody, patterns=[z3.Select(A.v.arrs[0], T)])
+    body = z3.Implies(z3.And(0 <= j, j < j2, j2 < A.len), f(j) < f(j2))
+    mono = z3.ForAll([j, j2], body) if proving else z3.ForAll([j, j2], body, patterns=[MP(f(j), f(j2))])
+    rng_ = z3.ForAll([j], z3.Implies(z3.And(0 <= j, j < A.len), z3.And(0 <= f(j), f(j) < B.len))) if proving else \
+        z3.ForAll([j], z3.Implies(z3.And(0 <= j, j < A.len), z3.And(0 <= f(j), f(j) < B.len)), patterns=[f(j)])
+    return z3.And(elem, mono, rng_)
+
+
+def skolem_index(a_ref, b_ref):
+    return lambda j: SUBF(a_ref, b_ref, j)
+
+
+def derived(e, new, old, f=None, proving=False, kept=None):
+    """segment view `new` is `old` itself, or was rebuilt from a sub-sequence of old's positions: never adds, moves or re-scores positions
+    (plain segment with score = sum of what is left and the same peak; the empty segment if nothing is left)"""
+    f = f or skolem_index(new.ref, old.ref)
+    R = new.positions
+    total = e.score_sum((kept if kept is not None else R).v)
+    rebuilt = z3.And(z3.Implies(R.len > 0, z3.And(is_cls(e, new, 'AlignmentSegment'), subseq(R, old.positions, f, proving),
+                                                  new.segmentScore == total, new.peak.ref == old.peak.ref)),
+                     z3.Implies(R.len == 0, z3.And(is_cls(e, new, 'EmptyAlignmentSegment'), new.segmentScore == 0)))
+    return z3.Or(new.ref == old.ref, rebuilt)
